@@ -5,6 +5,6 @@ Rules == {"table", "strikethrough", "code", "fence", "blockquote", "hr", "list",
           "html_inline", "entity", "replacements", "smartquotes"}
 Opts == {<<"html", "T">>, <<"html", "F">>, <<"typographer", "T">>, <<"breaks", "T">>, <<"xhtmlOut", "T">>,
          <<"xhtmlOut", "F">>, <<"langPrefix", "">>, <<"langPrefix", "x\"<">>, <<"quotes", "q4">>,
-         <<"quotes", "qlist">>, <<"maxNesting", "1">>, <<"maxNesting", "2">>, <<"maxNesting", "5">>,
+         <<"quotes", "qlist">>, <<"quotes", "qempty">>, <<"maxNesting", "1">>, <<"maxNesting", "2">>, <<"maxNesting", "5">>,
          <<"inline_definitions", "T">>, <<"store_labels", "T">>}
 =============================================================================
